@@ -252,6 +252,25 @@ func (w *world) pktTerm(m mqtt.Message) string {
 			}
 			json.Unmarshal(p.Payload, &l)
 			return vlib.App("PLink", vlib.N(uint64(l.Req)), vlib.N(uint64(l.Status)), vlib.Str(l.Name), vlib.Str(l.Channel))
+		case topic == "emitter/history/":
+			var h struct {
+				Req      uint16 `json:"req"`
+				Status   int    `json:"status"`
+				Messages []struct {
+					Channel string `json:"channel"`
+					Payload []byte `json:"payload"`
+				} `json:"messages"`
+			}
+			json.Unmarshal(p.Payload, &h)
+			status := h.Status
+			if status == 0 {
+				status = 200
+			}
+			items := []string{}
+			for _, m := range h.Messages {
+				items = append(items, vlib.Pair(vlib.Str(m.Channel), vlib.Bytes(m.Payload)))
+			}
+			return vlib.App("PHistory", vlib.N(uint64(h.Req)), vlib.N(uint64(status)), vlib.List(items))
 		case strings.HasPrefix(topic, "emitter/"):
 			var e struct {
 				Status int    `json:"status"`
@@ -527,6 +546,22 @@ func history(lic license.License, mqttMode bool, nClients, steps int, script []s
 			got, _ := cl.waitFor(isType(mqtt.TypeOfPuback))
 			w.pending[ci] = append(w.pending[ci], got...)
 			step(ci, vlib.App("OLink", vlib.N(uint64(mid)), vlib.Str(name), vlib.Str(k.str), vlib.Str(ch), vlib.Bool(sub)), "link")
+		case x < 84: // history request (the key travels inside the channel text)
+			k := keys[r.Intn(len(keys))]
+			ch := vlib.Pick2(r, "a/", "a/b/", "a/b/?last=3", "a/b/c/?last=100", "a/?last=0", "b/", "a/+/?last=5", "a/b/?from=1&last=9", "a b/", "a/b")
+			if sc != nil {
+				k, ch = keys[sc.key], sc.topic
+			}
+			text := k.str + "/" + ch
+			if r.Intn(20) == 0 && sc == nil {
+				text = ch // no key at all
+			}
+			req, _ := json.Marshal(map[string]interface{}{"key": k.str, "channel": text})
+			mid := nextMid(cl)
+			cl.send(&mqtt.Publish{Header: mqtt.Header{QOS: 1}, MessageID: mid, Topic: []byte("emitter/history/"), Payload: req})
+			got, _ := cl.waitFor(isType(mqtt.TypeOfPuback))
+			w.pending[ci] = append(w.pending[ci], got...)
+			step(ci, vlib.App("OHistory", vlib.N(uint64(mid)), vlib.Str(text)), "history")
 		case x < 92: // presence request
 			k := keys[r.Intn(len(keys))]
 			ch := vlib.Pick2(r, "a/", "a/b/", "b/", "a/b/c/", "a", "b/a/", "presence/", "presence/a/")
@@ -754,7 +789,9 @@ func main() {
 		sc := []scriptStep{{ci: 0}, {ci: 1}, {ci: 1, x: 50, topic: "a/b/?ttl=600"}, {ci: 1, x: 50, topic: "a/b/?ttl=700"}, {ci: 1, x: 50, topic: "a/b/c/?ttl=600"},
 			{ci: 0, x: 0, topic: "a/b/?last=2"}, {ci: 0, x: 0, topic: "a/b/?last=2"}, {ci: 0, x: 0, topic: "a/b/?last=5"},
 			{ci: 0, x: 30, topic: "a/b/"}, {ci: 0, x: 0, topic: "a/b/?last=1"}, {ci: 0, x: 0, topic: "a/b/"}, {ci: 0, x: 0, topic: "a/b/?last=0"},
-			{ci: 1, x: 0, topic: "a/b/?last=3"}}
+			{ci: 1, x: 0, topic: "a/b/?last=3"},
+			{ci: 0, x: 83, topic: "a/b/"}, {ci: 0, x: 83, topic: "a/b/?last=2"}, {ci: 1, x: 83, topic: "a/b/?last=10"}, {ci: 1, x: 83, topic: "a/b/c/?last=10"},
+			{ci: 1, x: 83, topic: "a/?last=10"}, {ci: 0, x: 83, topic: "a/b/?last=0"}, {ci: 0, x: 83, topic: "a/b/", key: 8}, {ci: 0, x: 83, topic: "a/b/?last=5", key: 7}}
 		t, h := history(lics[v%3], v == 2, 2, 0, sc)
 		sh.Add(t, h, "scenario/replay-on-repeated-subscription", true)
 	}
@@ -806,5 +843,5 @@ func main() {
 		t, h := burst(lics[n%3], n)
 		sh.Add(t, h, "scenario/presence-burst", true)
 	}
-	sh.Finish("sessions of 2-4 clients (connect with/without username and last will, subscribe, unsubscribe, publish with retain / ttl / me=0 / links, link and presence requests, ping, four ways of ending incl. a packet on which the decoder panics, reconnects; directed scenarios for filters whose bookkeeping keys collide; stored messages replayed to first, repeated and re-made subscriptions; presence watcher that stops reading during a burst of 150 / 260 subscriptions) over channels a/ a/b/ b/a/ a/a/ b/b/ a/b/c/ b/ x/x/y/ y/ with wildcards and options, nine keys (targets #/ a/#/ a/b/ b/#/, masks incl. read-only, write-only, extendable, expired, no-load), emitter and mqtt matcher; every request acknowledged before the next; presence notifications flushed by a FIFO barrier; non-trivial: all")
+	sh.Finish("sessions of 2-4 clients (connect with/without username and last will, subscribe, unsubscribe, publish with retain / ttl / me=0 / links, link, presence and history requests, ping, four ways of ending incl. a packet on which the decoder panics, reconnects; directed scenarios for filters whose bookkeeping keys collide; stored messages replayed to first, repeated and re-made subscriptions; presence watcher that stops reading during a burst of 150 / 260 subscriptions) over channels a/ a/b/ b/a/ a/a/ b/b/ a/b/c/ b/ x/x/y/ y/ with wildcards and options, nine keys (targets #/ a/#/ a/b/ b/#/, masks incl. read-only, write-only, extendable, expired, no-load), emitter and mqtt matcher; every request acknowledged before the next; presence notifications flushed by a FIFO barrier; non-trivial: all")
 }
